@@ -196,6 +196,8 @@ def schedule_distribution(cases):
             half = sched[:len(sched) // 2]
             if len(sched) >= 4 and any(t not in half for t in range(len(tasks))):
                 d["late_start(a task unpolled in the first half)"] += 1
+        elif mode == 7:
+            pass
         elif mode == 5:
             if any(x > 0 for x in sched[2:]):
                 d["late_start(a task unpolled in the first half)"] += 1
@@ -214,7 +216,9 @@ class C12(PropBase):
             "lock; mode 4: the tasks are children of one join_all (shared waker; a schedule = group sizes of a nested join_all); "
             "mode 5: the tasks run on a real multi-threaded tokio runtime (schedule = workers 2..8, spawn/join_all style, start delays); "
             "mode 6: one join_all polled by hand, up to 48 children (> 30 = FuturesUnordered); in modes 5/6 only schedule-independent "
-            "observables are compared (c12_quiescent_observables_schedule_independent). Lookup kind 3 = get_file_path + fill_symbol; every "
+            "observables are compared (c12_quiescent_observables_schedule_independent); mode 7: a synthetic minidump (one thread per task, "
+            "one frame per lookup) goes through minidump_processor::process_minidump with the Symbolizer as SymbolProvider, 1..3 "
+            "concurrent processings on one symbolizer, hand-polled or on tokio. Lookup kind 3 = get_file_path + fill_symbol; every "
             "task checks the counters/stats itself after each lookup. Round-4 families: 20..520 modules on one symbolizer, bursts of up "
             "to 300 spurious polls of a waiter, suspensions up to 60, 4..8 tasks on one in-flight key, late starters. Exhaustive families: 2 tasks x 1..2 lookups x 2 keys "
             "x suspensions 0..1 x all binary schedules of the tier's length; all 25 pairs of supplier answers (Ok and every SymbolError "
@@ -554,6 +558,24 @@ class C12(PropBase):
             nth += 1
         dist["tokio_multi_thread"] = nth
         dist["tokio_multi_thread_by_workers"] = {str(k): by_workers[k] for k in sorted(by_workers)}
+        # through the processor (mode 7): synthetic dump, one thread per task, frames = lookups; 1..3 concurrent processings
+        # of the same dump on ONE symbolizer, polled by hand or spawned on a multi-threaded tokio runtime
+        npz = 0
+        for r in range(500 if q else 8000):
+            nt = rng.range(1, 6)
+            nk = rng.range(1, 4)
+            pool = [(cf, df, di) for cf in (1, 2, 3, 4, 5, 6) for df in (1, 2, 3) for di in (1, 2, 3)]
+            idents = []
+            for _ in range(nk):
+                cf, df, di = pool.pop(rng.below(len(pool)))
+                idents.append((cf, 1, df, di))
+            keys = [(rng.range(0, 3), rng.below(5)) + idents[i] for i in range(nk)]
+            tasks = [[(rng.below(nk), 0) for _ in range(rng.range(1, 4))] for _ in range(nt)]
+            ex = rng.below(3)
+            sched = [ex] if ex == 0 else ([ex, rng.range(2, 3)] + ([rng.range(2, 8)] if ex == 2 else []))
+            cases.append(fmt_case(7, tasks, keys, sched))
+            npz += 1
+        dist["through_the_processor"] = npz
         dist.update(schedule_distribution(cases))
         return cases, dist, True
 
@@ -562,8 +584,14 @@ class C12(PropBase):
     def _canon(case, ans):
         if ans.startswith("P;;"):
             return "P;;"
-        if case[:2] in ("5 ", "6 "):
-            return mask_stats(case, ans)
+        if case[:2] in ("5 ", "6 ", "7 "):
+            ans = mask_stats(case, ans)
+        if case[:2] == "7 ":
+            # frames `key~class` -> class: the thread's frames are the task's lookups, in order
+            f = ans.split(";")
+            if len(f) == 8:
+                f[3] = "|".join("-" if row == "-" else ".".join(e.split("~")[-1] for e in row.split(".")) for row in f[3].split("|"))
+                ans = ";".join(f)
         return ans
 
     def canon_model(self, case, ans):
@@ -589,6 +617,19 @@ class C12(PropBase):
             return "unknown status " + status
         if mode == 2:
             return self.oracle_files(tasks, keys, log, res)
+        if mode == 7:
+            # through the processor: frames carry their module; re-shape into the per-lookup form and check the walk
+            rows = res.split("|")
+            if len(rows) != len(tasks):
+                return "processor reported %d threads, the dump has %d" % (len(rows), len(tasks))
+            shaped = []
+            for ti, (lk, row) in enumerate(zip(tasks, rows)):
+                fr = [] if row == "-" else [e.split("~") for e in row.split(".")]
+                if [x[0] for x in fr] != [str(k) for k, _ in lk]:
+                    return ("thread %d: frames lie in modules %r, the stack holds frames in modules %r (a frame was lost)"
+                            % (ti, [x[0] for x in fr], [k for k, _ in lk]))
+                shaped.append(".".join(x[1] for x in fr) if fr else "-")
+            res = "|".join(shaped)
         dropped = set()
         if mode == 3 and mid != "-":
             dropped = {int(e) - 100 for e in mid.split(".") if int(e) >= 100}
